@@ -72,6 +72,25 @@ CLAIMED.update({
    note="Simulated devices do not echo passwords; device-issued keys are alphanumeric with '=' padding; passwords contain no white space."),
 })
 
+CLAIMED.update({
+ "C01": conv("ASA","ACLs, object-groups, bindings, routes, device spelling, unmanaged layer"),
+ "C02": conv("IOS","numbered ACLs with permit/deny blocks, interface bindings, routes, classic and IOS-XE spelling"),
+ "C03": conv("PAN-OS","vsys rulebases, addresses, address-groups, services, name clashes"),
+ "C04": conv("NSX","gateway policies, groups, services, id clashes, foreign objects"),
+ "C05": dict(category="exploration", design="DESIGN.md §3 C05",
+   technique="runtime monitoring: semantic Linux model loaded with the emitted route commands and iptables-restore file, round trip through kernel spelling, file mode and live",
+   text="Semantic targets (routes, iptables tables/chains/rules) are printed in random documented Netspoc spelling, device states in kernel spelling (ip route show, iptables-save); the emitted commands and restore file are executed on the model, which must equal the target; the model printed in kernel spelling must compare clean (file mode, and for a fraction as full live approve + live compare through the simulator with the scp hook).",
+   note="Kernel spelling is limited to the option set of the model's printer; both spellings are printed from one semantic value."),
+ "C07": dict(category="exploration", design="DESIGN.md §3 C07",
+   technique="runtime monitoring: frame monitor on the unmanaged projection of the device model after every executed command",
+   text="Pairs from the convergence generators with an unmanaged layer (ASA/IOS: manual ACLs and groups, interface unknown to Netspoc with bound ACL, unmanaged group-policy, snmp/ntp/logging/aaa-server/policy-map lines, unmanaged VRF routes; PAN-OS: foreign vsys and shared objects; NSX: objects without Netspoc prefix) are executed on the models; the unmanaged projection must be identical after every command.",
+   note="Unmanaged content is what the generator adds; names are fixed so the projection is exact."),
+ "C08": dict(category="exploration", design="DESIGN.md §3 C08",
+   technique="runtime monitoring: device models that reject exactly the five rule classes of the statement while executing the emitted script in order",
+   text="Every command of the scripts for ASA, IOS, PAN-OS and NSX pairs is executed in order on the models, which reject references to absent objects, deletion of referenced objects, duplicate ACL entries, wrong line/sequence positions and sub-commands outside their mode; joined two-command entries are judged after both halves.",
+   note="Nothing beyond the five rules is demanded; other irregularities are anomalies; unmodelled commands are inconclusive."),
+})
+
 PENDING = {
 }
 
